@@ -269,6 +269,9 @@ pub fn mutations_deep(valid: &[u8], depth: usize) -> Vec<(String, Vec<u8>)> {
             v[last] ^= 0x80;
             variants.push(("leaf".into(), v));
         }
+        for (_, v) in multihash_resized(b) {
+            variants.push(("leaf".into(), v));
+        }
         if depth > 0 && !b.is_empty() && pb_parse(b).map(|f| !f.is_empty()).unwrap_or(false) {
             for (_, nb) in mutations_deep(b, depth - 1) {
                 variants.push(("nested".into(), nb));
@@ -322,6 +325,26 @@ pub fn truncations_framed(valid: &[u8]) -> Vec<(String, Vec<u8>)> {
             m.extend(uvarint(announced));
             m.extend_from_slice(&valid[off + n..]);
             out.push(("len-extreme".into(), m));
+        }
+    }
+    out
+}
+
+/// When `b` is shaped like a small multihash (`code, len, len digest bytes`): the same
+/// multihash with the length byte changed and the digest padded / cut to match, around the
+/// inline-key boundary, and with the code byte swapped between identity and SHA2-256.
+pub fn multihash_resized(b: &[u8]) -> Vec<(String, Vec<u8>)> {
+    let mut out = vec![];
+    if b.len() >= 2 && b[0] < 0x80 && b[1] < 0x80 && b.len() == 2 + b[1] as usize {
+        for code in [b[0], if b[0] == 0x00 { 0x12 } else { 0x00 }] {
+            for l in [0usize, 1, 31, 32, 33, 36, 41, 42, 43, 44, 63, 64, 65, 127] {
+                if code == b[0] && l == b[1] as usize {
+                    continue;
+                }
+                let mut v = vec![code, l as u8];
+                v.extend((0..l).map(|i| b.get(2 + i).copied().unwrap_or(0xaa)));
+                out.push(("leaf".to_string(), v));
+            }
         }
     }
     out
